@@ -7,3 +7,8 @@ package addrquota
 
 // VerifIPKey = ipKey.
 func VerifIPKey(ip string) string { return ipKey(ip) }
+
+// VerifLockMu / VerifUnlockMu take and release the cache mutex, so that the harness can park
+// concurrent first-contact callers of Blocked behind it and release them together.
+func (q *Quota) VerifLockMu()   { q.mu.Lock() }
+func (q *Quota) VerifUnlockMu() { q.mu.Unlock() }
